@@ -24,6 +24,8 @@ type HookFn func(s *server.Server, point string, args ...interface{})
 var (
 	hookMu   sync.RWMutex
 	hookFns  = map[int]HookFn{}         // by port
+	hookGen  = map[int]int64{}          // by port: generation of the installed hook (a port is reused by later servers)
+	hookSeq  int64
 	srvByPrt = map[int]*server.Server{} // by port
 	anyHook  HookFn                     // receives every point of every server (optional)
 )
@@ -57,8 +59,29 @@ func SetHook(port int, fn HookFn) {
 	hookMu.Lock()
 	if fn == nil {
 		delete(hookFns, port)
+		delete(hookGen, port)
 	} else {
 		hookFns[port] = fn
+		hookSeq++
+		hookGen[port] = hookSeq
+	}
+	hookMu.Unlock()
+}
+
+// HookGeneration tells which installation of a hook a port currently carries (0: none).
+func HookGeneration(port int) int64 {
+	hookMu.RLock()
+	defer hookMu.RUnlock()
+	return hookGen[port]
+}
+
+// ClearHookIf removes the hook of a port unless a later server has installed its own meanwhile (ports are reused as soon
+// as a listener is closed, which happens before Serve returns).
+func ClearHookIf(port int, gen int64) {
+	hookMu.Lock()
+	if hookGen[port] == gen {
+		delete(hookFns, port)
+		delete(hookGen, port)
 	}
 	hookMu.Unlock()
 }
@@ -90,6 +113,7 @@ type Srv struct {
 	shutdown chan bool
 	done     chan error
 	stopped  bool
+	hookGen  int64 // generation of the hook this server was started with
 }
 
 var nextPort atomic.Int64
@@ -166,6 +190,7 @@ func start(o Options) (*Srv, error) {
 	if o.Hook != nil {
 		SetHook(o.Port, o.Hook)
 	}
+	s.hookGen = HookGeneration(o.Port)
 	go func() {
 		s.done <- server.Serve(server.Options{
 			Host: o.Host, Port: o.Port, Dir: o.Dir, UseHTTP: true, DevMode: true,
@@ -250,7 +275,7 @@ func (s *Srv) Stop() error {
 	close(s.shutdown)
 	select {
 	case err := <-s.done:
-		SetHook(s.Port, nil)
+		ClearHookIf(s.Port, s.hookGen)
 		if s.S != nil {
 			s.S.VerifCloseFiles() // Serve leaves its log and hook queue open
 		}
